@@ -5,8 +5,10 @@ import (
 	"errors"
 	"fmt"
 	"io"
+	"net/http/httptest"
 	"strconv"
 	"strings"
+	"time"
 
 	"google.golang.org/protobuf/encoding/protodelim"
 	"google.golang.org/protobuf/encoding/protowire"
@@ -275,7 +277,53 @@ func seqRun(c *Ctx, kind, codec string, limit int, wire []byte, carry0 int, spar
 	return msgs, "no-end", false, false
 }
 
+// c17Mux: the codecs behind the stream that drives them (streamHTTP.readMsg's look-ahead
+// buffer) with receive limits far below the read buffer: what the handler receives is what
+// was sent, and the stream ends.
+func c17Mux(c *Ctx) {
+	for _, limit := range []int{4, 8, 16, 100} {
+		sfx, err := newStreamFx(larking.MaxReceiveMessageSizeOption(limit))
+		if err != nil {
+			c.Note("c17 mux fixture: " + err.Error())
+			return
+		}
+		for _, size := range []int{0, 1, limit - 1, limit, limit + 1, 2 * limit, 2*limit + 3, 5 * limit, 64, 65, 200} {
+			body := make([]byte, size)
+			c.Rng.Read(body)
+			for _, sched := range [][]int{nil, {1, 1, 1, 1, 1, 1, 1, 1, 1, 1, 1, 1, 1, 1, 1, 1, 1, 1, 1, 1}, genSched(c, size)} {
+				sfx.reset(nil)
+				done := make(chan struct{})
+				var rec *httptest.ResponseRecorder
+				var pn interface{}
+				go func() {
+					rec, pn = sfx.serveStream("POST", "/c06/upload/f", map[string]string{"Content-Type": "application/octet-stream"}, body, sched, c.Rng.Intn(2) == 0, false)
+					close(done)
+				}()
+				in := fmt.Sprintf("HttpBody upload through the mux: limit=%d body=%d sched=%v", limit, size, trunc2(sched, 8))
+				c.Eval("mux-body", in, size > 0)
+				select {
+				case <-done:
+				case <-time.After(3 * time.Second):
+					c.SpecFail("mux-body", in, "the handler is still receiving after 3 s", "the stream ends", "C17/mux-body/endless", "the chunk stream never reports its end")
+					return
+				}
+				var all []byte
+				sfx.mu.Lock()
+				n := len(sfx.got)
+				for _, g := range sfx.got {
+					all = append(all, g...)
+				}
+				sfx.mu.Unlock()
+				if pn != nil || rec.Code != 200 || !bytes.Equal(all, body) {
+					c.SpecFail("mux-body", in, fmt.Sprintf("%d, %d chunks, %d bytes %x panic=%v", rec.Code, n, len(all), trunc(all, 40), pn), fmt.Sprintf("%d bytes %x", len(body), trunc(body, 40)), "C17/mux-body/sequence", "the chunks handed to the handler are not the bytes that were sent")
+				}
+			}
+		}
+	}
+}
+
 func runC17(c *Ctx) {
+	c17Mux(c)
 	c.Rule("per codec (proto, json, body chunker, readAll): message sequences of 0..4 messages over boundary sizes, every composition of short wires (<= 9 bytes quick, <= 12 thorough) into reads and sampled schedules of long ones, EOF with the last data or separately, initial carry 0..3 bytes and spare capacity {0,1,2,5,64,512}, limits around each message size, all 1..10-byte length prefixes incl. 2^63 and 2^64-1, every truncation offset. Each ReadNext call is corresponded with the model on the recorded schedule; the sequence-level oracle compares what was read with what was written. Non-trivial: non-empty wire; distinct by kind+input.")
 	c.Assume("readers obey io.Reader (never (0,nil) forever); limit > 0 as the mux passes it")
 
